@@ -81,6 +81,18 @@ class TieBroken(Exception):
         self.what, self.detail = what, detail
 
 
+def crash_of(tie):
+    """A harness that died while executing a statement: (statement, first line of the crash) or None."""
+    st = getattr(tie, "statement", None)
+    d = getattr(tie, "detail", "") or ""
+    if tie is None or not st:
+        return None
+    for mark in ("panic:", "fatal error:"):
+        if mark in d:
+            return st, d[d.index(mark):].split("\n")[0][:300]
+    return None
+
+
 def build_harness(tags="verif", race=False):
     """(Re)build the Go harness against /repo's current working tree."""
     os.makedirs(BUILD, exist_ok=True)
@@ -255,6 +267,10 @@ def run_bwh(args, out_path=None, timeout=3000, stdin_path=None, binary=None, ext
     env = go_env()
     if extra_env:
         env.update(extra_env)
+    # the statement a harness is executing when it dies (a panic in a goroutine the engine spawned kills the process)
+    os.makedirs(SCRATCH, exist_ok=True)
+    cur = os.path.join(SCRATCH, f"cur-{os.getpid()}-{args[0]}.txt")
+    env["VERIF_CURFILE"] = cur
     fin = open(stdin_path, "rb") if stdin_path else subprocess.DEVNULL
     fout = open(out_path, "wb") if out_path else None
     try:
@@ -265,7 +281,17 @@ def run_bwh(args, out_path=None, timeout=3000, stdin_path=None, binary=None, ext
         if fout:
             fout.close()
     if p.returncode != 0:
-        raise TieBroken(f"harness `bwh {' '.join(args)}` exited {p.returncode}", p.stderr.decode("utf-8", "replace")[-4000:])
+        e = TieBroken(f"harness `bwh {' '.join(args)}` exited {p.returncode}", p.stderr.decode("utf-8", "replace")[-4000:])
+        try:
+            h = (read_lines(cur) or [""])[0].strip()
+            e.statement = bytes.fromhex(h).decode("utf-8", "replace") if h else None
+        except (OSError, ValueError):
+            e.statement = None
+        raise e
+    try:
+        os.remove(cur)
+    except OSError:
+        pass
     return None if out_path else p.stdout.decode("utf-8", "replace").split("\n")
 
 
